@@ -6,6 +6,7 @@ CONSTANTS
   L = 4
   Dim = 1
   Periodic = FALSE
+  OpenAxes = {}
   Radii = {1}
   MaxPer = 2
   NFrames = 3
